@@ -42,7 +42,7 @@ class C01(Check):
         exp = symx.explore(classify_db.harness, self.db_ctx, name='classify_intervals[G=%d]' % G)
         self.absorb(exp, need_paths=2)
         # a stretch boundary between two neighbouring instants that both carry a level (see C03 / dbstate.labels_of)
-        for b in ([1, 2] if self.tier == 'quick' else list(range(G))):
+        for b in ([1, 2] if self.tier == "quick" else list(range(1, G - 1))):
             exp = symx.explore(classify_db.harness, dict(self.db_ctx, brk=(b,)), name='classify_intervals_break%d[G=%d]' % (b, G))
             self.absorb(exp, need_paths=2)
 
